@@ -118,6 +118,22 @@ def gen_for(pid, rng, tier):
             spec["evalmon"] = False         # the default Null evaluation monitor
         if rng.random() < 0.15:
             spec["stepmon"] = rng.choice([2.0, 0.5, -1.0])
+        if rng.random() < 0.12 and spec["solver"] != "DE2" and spec.get("evalmon", True):
+            # an evaluation monitor that already holds records of another run (shared / reused), and limits given with new=True
+            spec["evalmon_prefilled"] = rng.choice([3, 17, 60])
+            ops = [o for o in spec["ops"] if o[0] != "setevalmon"]
+            at = rng.randint(0, min(4, len(ops)))
+            ops = ops[:at] + [("setlimits", rng.choice([None, 3, 6]), rng.choice([4, 9, 15, 30]), True)] + [("step",)] * rng.randint(3, 8) + ops[at:]
+            spec["ops"] = ops
+            spec["termination"] = ("never",)
+        if rng.random() < 0.15 and spec.get("flavour") in ("steps", "ops"):
+            # a termination handed to Step itself on a live solver - one that already holds, or one that does not
+            always = rng.choice([("VTR", 1e12, 0.0), ("Or", ("VTR", 1e12, 0.0), ("COG", 1e-9, 50)), ("EVL", 0, None)])
+            never = ("never",)
+            ops = list(spec["ops"])
+            at = rng.randint(2, max(2, min(6, len(ops))))
+            ops = ops[:at] + [("step", {"termination": rng.choice([always, always, never])})] + [("step",)] * rng.randint(1, 3) + ops[at:]
+            spec["ops"] = ops
         if rng.random() < 0.18:
             # the EvaluationLimits CONDITION (not SetEvaluationLimits), alone or in an Or, with budgets that iteration
             # boundaries land on exactly: multiples of the population size / small counts
